@@ -67,3 +67,21 @@ def matches_known(k, case, verdict): return False
 TRUSTED = ['Coq 8.16.1 kernel and vm_compute', 'Rust harness (harness/src/unit.rs: case parser, exact f32->rational printer)',
            'f32 modelled as exact rationals on dyadic inputs (DESIGN.md section 3)']
 ASSUMES = ['inputs are dyadic rationals on which f32 arithmetic is exact', 'NaN/infinity are outside the model']
+
+
+def tracker_cases(tier, rng):
+    """conversions as the action evaluation uses them: every value entering the running tracker is converted to the
+    action\'s dimension (bool as 0/1 on X) before it is merged, shown to action-level conditions or stored"""
+    import C04
+    for c, tag in C04.cases(tier, rng):
+        if tag in ('mixed-dimensions', 'random') or tag.startswith('exhaustive-states-values-2'):
+            yield (c, 'tracker-' + tag)
+
+STAGES.append(dict(name='tracker', mode='app', coq='Check.C04c', profile=('Proofs.JudgeC04P', 'JudgeC04P.profile_C04b', 'C04_app_judgement_sound / C04_app_judgement_transfer (the stage is judged by Check.C04c)'),
+                   cases=tracker_cases, nontrivial=lambda case, out: 'SFired' in out, shard=8, exhaustive={'thorough': False, 'quick': False},
+                   rule='the merge scenarios of C04 in which values of every dimension meet every output type (two inputs, all state / value combinations; dimension-changing modifiers; random): the stored and merged values are the conversions the property describes'))
+_describe20 = describe
+def describe(stage, clause):
+    if stage == 'tracker':
+        return {1: 'a value was not converted to the action\'s dimension (bool as 0/1 on X) before it was merged', 2: 'the stored value is not the conversion of the merged value', 3: 'the polled value has another dimension than the action declares'}.get(clause, 'clause %d' % clause)
+    return _describe20(stage, clause)
